@@ -24,6 +24,8 @@ def arms(t, facts=()):
     """[(facts, ungated term)] for every consistent resolution of the gates in t."""
     g = first_gate(t)
     if g is None:
+        if any(x == ir.RAISES for x in ir.subterms(t)):
+            return []               # this resolution of the branches raises: no value
         return [(facts, t)]
     out = []
     for lit, pick in ((g[1], g[2]), (ir.negate(g[1]), g[3])):
@@ -91,11 +93,65 @@ def falsy(t):
     return [{t: ("const", 0)}]
 
 
-def identical(cand, ref, atoms=None, pre_subst=None, norm_factory=None):
+def decide(lit, bounds):
+    """Truth value of a comparison literal when it is determined by constants and by lower bounds on
+    counters (bounds: {term: lower bound}); None if undetermined. Affine reasoning on one atom only."""
+    from fractions import Fraction
+    lit = normalise_not(lit)
+    if not (isinstance(lit, tuple) and lit and lit[0] == "cmp" and lit[1] in ("<", "<=", ">", ">=", "==", "!=")):
+        return None
+    names = {t: f"b{i}" for i, t in enumerate(bounds)}
+    norm = Normaliser(names)
+    try:
+        d = norm.rat(("op", "-", lit[2], lit[3]))
+    except (OutOfDomain, ZeroDivisionError):
+        return None
+    if not d.d.is_const() or d.d.const_value() == 0:
+        return None
+    k = d.d.const_value()
+    monos = set(d.n.t)
+    allowed = {()} | {((n, 1),) for n in names.values()}
+    if not monos <= allowed:
+        return None
+    c0 = d.n.t.get((), Fraction(0)) / k
+    lo, hi = c0, c0            # range of d over the bounded atoms
+    for t, n in names.items():
+        c1 = d.n.t.get(((n, 1),), Fraction(0)) / k
+        if c1 > 0:
+            lo += c1 * bounds[t]
+            hi = None if hi is None else None
+        elif c1 < 0:
+            hi = None if hi is None else hi + c1 * bounds[t]
+            lo = None
+        if c1 > 0:
+            hi = None
+    op = lit[1]
+    def known(cond_true, cond_false):
+        return True if cond_true else (False if cond_false else None)
+    if op == "<":
+        return known(hi is not None and hi < 0, lo is not None and lo >= 0)
+    if op == "<=":
+        return known(hi is not None and hi <= 0, lo is not None and lo > 0)
+    if op == ">":
+        return known(lo is not None and lo > 0, hi is not None and hi <= 0)
+    if op == ">=":
+        return known(lo is not None and lo >= 0, hi is not None and hi < 0)
+    if op == "==":
+        return known(lo is not None and hi is not None and lo == hi == 0, (lo is not None and lo > 0) or (hi is not None and hi < 0))
+    if op == "!=":
+        r = decide(("cmp", "==", lit[2], lit[3]), bounds)
+        return None if r is None else not r
+    return None
+
+
+def identical(cand, ref, atoms=None, pre_subst=None, norm_factory=None, bounds=None):
     """Is cand == ref as real functions on every arm? ref may be a term or a callable
-    (normaliser, substitution dict) -> Rat for references built in the Rat domain."""
+    (normaliser, substitution dict) -> Rat for references built in the Rat domain.
+    bounds: {counter term: lower bound}; arms whose branch facts are false under them are infeasible."""
     described = []
     for facts, t in arms(cand):
+        if any(decide(f, bounds or {}) is False for f in facts):
+            continue
         alts = [{}]
         for lit in facts:
             alts = [{**o, **s} for o in alts for s in fact_substs(lit)]
